@@ -1,5 +1,589 @@
 package c10
 
-import "verif/mc/ev"
+// RPC level: starknet_getStorageProof (rpc v9 and v10) through a real jsonrpc.Server on a real Blockchain (both state
+// backends) holding every distinct state reachable by <= D alphabet blocks; every contract / class / storage slot of
+// the universe (present and absent) is requested, alone and all together, and the JSON response is verified with the
+// independent verifier against the global state root in the head block's header.
 
-func runRPC(r *ev.Run) {}
+import (
+	"bytes"
+	"context"
+	"encoding/json"
+	"fmt"
+	"math/big"
+	"sort"
+	"strings"
+	"sync"
+
+	"verif/mc/chain"
+	"verif/mc/ev"
+	"verif/mc/reftrie"
+
+	"github.com/NethermindEth/juno/blockchain"
+	"github.com/NethermindEth/juno/core/felt"
+	"github.com/NethermindEth/juno/db/memory"
+	"github.com/NethermindEth/juno/jsonrpc"
+	rpcv10 "github.com/NethermindEth/juno/rpc/v10"
+	rpcv9 "github.com/NethermindEth/juno/rpc/v9"
+	"github.com/NethermindEth/juno/utils/log"
+)
+
+// ---- response as a client sees it (own types, decoded from the JSON text)
+
+type jNode struct {
+	Left   *string `json:"left"`
+	Right  *string `json:"right"`
+	Path   *string `json:"path"`
+	Length *int    `json:"length"`
+	Child  *string `json:"child"`
+}
+
+type jHashNode struct {
+	Hash string `json:"node_hash"`
+	Node jNode  `json:"node"`
+}
+
+type jLeaf struct {
+	Nonce       string `json:"nonce"`
+	ClassHash   string `json:"class_hash"`
+	StorageRoot string `json:"storage_root"`
+}
+
+type jResult struct {
+	ClassesProof   []jHashNode `json:"classes_proof"`
+	ContractsProof struct {
+		Nodes  []jHashNode `json:"nodes"`
+		Leaves []*jLeaf    `json:"contract_leaves_data"`
+	} `json:"contracts_proof"`
+	StorageProofs [][]jHashNode `json:"contracts_storage_proofs"`
+	GlobalRoots   struct {
+		Contracts string `json:"contracts_tree_root"`
+		Classes   string `json:"classes_tree_root"`
+		BlockHash string `json:"block_hash"`
+	} `json:"global_roots"`
+}
+
+type jResp struct {
+	Result *jResult `json:"result"`
+	Error  *struct {
+		Code    int             `json:"code"`
+		Message string          `json:"message"`
+		Data    json.RawMessage `json:"data"`
+	} `json:"error"`
+}
+
+func hexFelt(s string) (felt.Felt, error) {
+	b, ok := new(big.Int).SetString(strings.TrimPrefix(s, "0x"), 16)
+	if !ok || !strings.HasPrefix(s, "0x") {
+		return felt.Zero, fmt.Errorf("not a hex felt: %q", s)
+	}
+	return fOf(b), nil
+}
+
+func wireNodes(hs *hasher, in []jHashNode) ([]pnode, error) {
+	out := make([]pnode, 0, len(in))
+	for i, hn := range in {
+		var n pnode
+		var err error
+		switch {
+		case hn.Node.Left != nil && hn.Node.Right != nil && hn.Node.Path == nil && hn.Node.Child == nil:
+			if n.A, err = hexFelt(*hn.Node.Left); err != nil {
+				return nil, err
+			}
+			if n.B, err = hexFelt(*hn.Node.Right); err != nil {
+				return nil, err
+			}
+		case hn.Node.Path != nil && hn.Node.Child != nil && hn.Node.Length != nil && hn.Node.Left == nil:
+			n.Edge, n.Length = true, *hn.Node.Length
+			if n.A, err = hexFelt(*hn.Node.Child); err != nil {
+				return nil, err
+			}
+			if n.B, err = hexFelt(*hn.Node.Path); err != nil {
+				return nil, err
+			}
+		default:
+			return nil, fmt.Errorf("node %d is neither a binary nor an edge node", i)
+		}
+		if n.Claimed, err = hexFelt(hn.Hash); err != nil {
+			return nil, err
+		}
+		if hh := hs.hash(&n); !hh.Equal(&n.Claimed) {
+			return nil, fmt.Errorf("node %d: node_hash %s is not the hash of the node (%s)", i, hn.Hash, hh.String())
+		}
+		out = append(out, n)
+	}
+	return out, nil
+}
+
+// ---- node under test
+
+type rpcNode struct {
+	bc      *blockchain.Blockchain
+	servers map[string]*jsonrpc.Server
+}
+
+func storageProofParams() []jsonrpc.Parameter {
+	return []jsonrpc.Parameter{{Name: "block_id"}, {Name: "class_hashes", Optional: true}, {Name: "contract_addresses", Optional: true}, {Name: "contracts_storage_keys", Optional: true}}
+}
+
+func newRPCNode(bc *blockchain.Blockchain) *rpcNode {
+	n := &rpcNode{bc: bc, servers: map[string]*jsonrpc.Server{}}
+	lg := log.NewNopZapLogger()
+	h10 := rpcv10.New(bc, nil, nil, lg)
+	h9 := rpcv9.New(bc, nil, nil, lg)
+	for name, handler := range map[string]any{"v10": h10.StorageProof, "v9": h9.StorageProof} {
+		s := jsonrpc.NewServer(1, lg)
+		// registered exactly as rpc/handlers.go does
+		if err := s.RegisterMethods(jsonrpc.Method{Name: "starknet_getStorageProof", Params: storageProofParams(), Handler: handler}); err != nil {
+			panic(err)
+		}
+		n.servers[name] = s
+	}
+	return n
+}
+
+type sKeys struct {
+	Contract string   `json:"contract_address"`
+	Keys     []string `json:"storage_keys"`
+}
+
+type request struct {
+	blockID   any
+	classes   []felt.Felt
+	contracts []felt.Felt
+	storage   []struct {
+		c    felt.Felt
+		keys []felt.Felt
+	}
+}
+
+func (n *rpcNode) call(api string, rq *request) (*jResp, string, error) {
+	params := map[string]any{"block_id": rq.blockID}
+	hexes := func(fs []felt.Felt) []string {
+		out := make([]string, len(fs))
+		for i := range fs {
+			out[i] = fs[i].String()
+		}
+		return out
+	}
+	if rq.classes != nil {
+		params["class_hashes"] = hexes(rq.classes)
+	}
+	if rq.contracts != nil {
+		params["contract_addresses"] = hexes(rq.contracts)
+	}
+	if rq.storage != nil {
+		var sk []sKeys
+		for _, s := range rq.storage {
+			sk = append(sk, sKeys{s.c.String(), hexes(s.keys)})
+		}
+		params["contracts_storage_keys"] = sk
+	}
+	body, _ := json.Marshal(map[string]any{"jsonrpc": "2.0", "id": 1, "method": "starknet_getStorageProof", "params": params})
+	out, _, err := n.servers[api].HandleReader(context.Background(), bytes.NewReader(body))
+	if err != nil {
+		return nil, string(body), err
+	}
+	var resp jResp
+	dec := json.NewDecoder(bytes.NewReader(out))
+	if err := dec.Decode(&resp); err != nil {
+		return nil, string(body), fmt.Errorf("undecodable response %s: %w", out, err)
+	}
+	return &resp, string(body), nil
+}
+
+// ---- universe
+
+var absentAddr = chain.FV(0xDEAD)
+var absentSlot = chain.FV(0x99)
+var absentClass = chain.FV(0xC1A55)
+
+func universe(st *chain.State) (contracts, classes, slots []felt.Felt) {
+	contracts = []felt.Felt{chain.AddrA, chain.AddrB, chain.AddrC, chain.Sys1, chain.Sys2, absentAddr}
+	_, h0 := chain.Cairo0(0)
+	_, sh1, _, _ := chain.Sierra(1)
+	_, sh2, _, _ := chain.Sierra(2)
+	classes = []felt.Felt{h0, sh1, sh2, absentClass}
+	seen := map[felt.Felt]bool{}
+	add := func(f felt.Felt) {
+		if !seen[f] {
+			seen[f] = true
+			slots = append(slots, f)
+		}
+	}
+	add(chain.Slot0)
+	add(chain.Slot1)
+	add(chain.FV(7))
+	add(absentSlot)
+	var extra []felt.Felt
+	for _, c := range st.Contracts {
+		for k := range c.Storage {
+			extra = append(extra, k)
+		}
+	}
+	sort.Slice(extra, func(i, j int) bool { return extra[i].Cmp(&extra[j]) < 0 })
+	for _, k := range extra {
+		add(k)
+	}
+	return
+}
+
+// ---- the independent check of one response
+
+type rpcCtx struct {
+	r       *ev.Run
+	api     string
+	backend string
+	version string
+	hist    string
+	st      *chain.State
+	e       *chain.Entry
+	loc     tally
+}
+
+func (c *rpcCtx) key(what string) string {
+	return fmt.Sprintf("rpc-%s %s", c.api, what)
+}
+
+func (c *rpcCtx) detail(rq string, extra map[string]any) map[string]any {
+	m := map[string]any{"api": c.api, "state_backend": c.backend, "protocol": c.version, "history": c.hist, "request": rq, "block": c.e.Block.Number}
+	for k, v := range extra {
+		m[k] = v
+	}
+	return m
+}
+
+func (c *rpcCtx) verify(rq *request, body string, resp *jResp) {
+	r := c.r
+	if resp.Error != nil {
+		r.Violate(c.key("request-at-head-answered-with-error "+c.backend), c.detail(body, map[string]any{"code": resp.Error.Code, "message": resp.Error.Message, "data": string(resp.Error.Data)}))
+		return
+	}
+	res := resp.Result
+	if res == nil {
+		r.Violate(c.key("no-result"), c.detail(body, nil))
+		return
+	}
+	ped, pos := newHasher(reftrie.Pedersen), newHasher(reftrie.Poseidon)
+	bad := func(what string, extra map[string]any) {
+		r.Violate(c.key(what+" "+c.backend), c.detail(body, extra))
+	}
+	// 1. the roots are bound to the head block
+	croot, err1 := hexFelt(res.GlobalRoots.Contracts)
+	kroot, err2 := hexFelt(res.GlobalRoots.Classes)
+	bh, err3 := hexFelt(res.GlobalRoots.BlockHash)
+	if err1 != nil || err2 != nil || err3 != nil {
+		bad("global-roots-malformed", map[string]any{"roots": res.GlobalRoots})
+		return
+	}
+	if !bh.Equal(c.e.Block.Hash) {
+		bad("global-roots-block-hash-is-not-the-head", map[string]any{"got": bh.String(), "want": c.e.Block.Hash.String()})
+	}
+	from0140 := c.version >= "0.14.0"
+	if commit := reftrie.StateCommitment(&croot, &kroot, from0140); !commit.Equal(c.e.Block.GlobalStateRoot) {
+		bad("global-roots-do-not-hash-to-the-block's-state-root", map[string]any{"contracts_tree_root": croot.String(), "classes_tree_root": kroot.String(),
+			"commitment": commit.String(), "header_state_root": c.e.Block.GlobalStateRoot.String()})
+		return
+	}
+	c.loc["#evaluations"]++
+	// 2. classes
+	knodes, err := wireNodes(pos, res.ClassesProof)
+	if err != nil {
+		bad("classes-proof-malformed", map[string]any{"err": err.Error()})
+		return
+	}
+	for _, cl := range rq.classes {
+		var want felt.Felt
+		if rec, ok := c.st.Classes[cl]; ok && rec.Sierra {
+			casm := rec.Casm()
+			want = reftrie.ClassLeaf(&casm)
+		}
+		vd := indVerify(pos, kroot, cl.BigInt(new(big.Int)), 251, knodes)
+		c.loc["#evaluations"]++
+		c.loc["#rpc_class_claims"]++
+		if !vd.OK || !vd.Val.Equal(&want) {
+			bad("class-proof-does-not-establish-the-class-leaf", map[string]any{"class": cl.String(), "want_leaf": want.String(), "verdict": vd, "nodes": len(knodes)})
+		} else if want.IsZero() {
+			c.loc.add("rpc class: absence proven")
+		} else {
+			c.loc.add("rpc class: membership proven")
+		}
+	}
+	// 3. contracts
+	cnodes, err := wireNodes(ped, res.ContractsProof.Nodes)
+	if err != nil {
+		bad("contracts-proof-malformed", map[string]any{"err": err.Error()})
+		return
+	}
+	if len(rq.contracts) != len(res.ContractsProof.Leaves) {
+		bad("contract-leaves-data-count-differs-from-request", map[string]any{"requested": len(rq.contracts), "got": len(res.ContractsProof.Leaves)})
+		return
+	}
+	storageRoot := map[felt.Felt]felt.Felt{} // authenticated storage roots
+	for i, a := range rq.contracts {
+		ld := res.ContractsProof.Leaves[i]
+		model, exists := c.st.Contracts[a]
+		vd := indVerify(ped, croot, a.BigInt(new(big.Int)), 251, cnodes)
+		c.loc["#evaluations"]++
+		c.loc["#rpc_contract_claims"]++
+		if !vd.OK {
+			bad("contract-proof-does-not-verify", map[string]any{"contract": a.String(), "verdict": vd})
+			continue
+		}
+		if !exists {
+			if !vd.Val.IsZero() || ld != nil {
+				bad("absent-contract-not-proven-absent", map[string]any{"contract": a.String(), "verdict": vd, "leaf_data": ld})
+			} else {
+				c.loc.add("rpc contract: absence proven, leaf data null")
+			}
+			continue
+		}
+		if ld == nil {
+			bad("existing-contract-has-no-leaf-data", map[string]any{"contract": a.String()})
+			continue
+		}
+		n, e1 := hexFelt(ld.Nonce)
+		ch, e2 := hexFelt(ld.ClassHash)
+		sr, e3 := hexFelt(ld.StorageRoot)
+		if e1 != nil || e2 != nil || e3 != nil {
+			bad("leaf-data-malformed", map[string]any{"leaf_data": ld})
+			continue
+		}
+		if leaf := reftrie.ContractLeaf(&ch, &sr, &n); !leaf.Equal(&vd.Val) {
+			bad("leaf-data-does-not-hash-to-the-proven-contract-leaf", map[string]any{"contract": a.String(), "leaf_data": ld, "proven_leaf": vd.Val.String(), "H(leaf_data)": leaf.String()})
+			continue
+		}
+		wantSR := c.st.StorageRoot(model)
+		if !n.Equal(&model.Nonce) || !ch.Equal(&model.Class) || !sr.Equal(&wantSR) {
+			bad("leaf-data-differs-from-the-state", map[string]any{"contract": a.String(), "leaf_data": ld, "nonce": model.Nonce.String(), "class": model.Class.String(), "storage_root": wantSR.String()})
+			continue
+		}
+		storageRoot[a] = sr
+		c.loc.add("rpc contract: leaf proven from leaf data")
+	}
+	// 4. storage
+	if len(rq.storage) != len(res.StorageProofs) {
+		bad("storage-proof-count-differs-from-request", map[string]any{"requested": len(rq.storage), "got": len(res.StorageProofs)})
+		return
+	}
+	sets := make([][]pnode, len(res.StorageProofs))
+	for j := range res.StorageProofs {
+		if sets[j], err = wireNodes(ped, res.StorageProofs[j]); err != nil {
+			bad("storage-proof-malformed", map[string]any{"err": err.Error(), "index": j})
+			return
+		}
+	}
+	for j, s := range rq.storage {
+		model, exists := c.st.Contracts[s.c]
+		root, authenticated := storageRoot[s.c]
+		if !exists {
+			root, authenticated = felt.Zero, true // absence of the contract was proven above; nothing can be stored
+		}
+		if !authenticated {
+			continue // the contract itself failed above (already reported)
+		}
+		for _, k := range s.keys {
+			var want felt.Felt
+			if exists {
+				want = model.Storage[k]
+			}
+			vd := indVerify(ped, root, k.BigInt(new(big.Int)), 251, sets[j])
+			c.loc["#evaluations"]++
+			c.loc["#rpc_storage_claims"]++
+			if vd.OK && vd.Val.Equal(&want) {
+				switch {
+				case !exists:
+					c.loc.add("rpc storage: contract absent")
+				case root.IsZero():
+					c.loc.add("rpc storage: empty storage trie")
+				case want.IsZero():
+					c.loc.add("rpc storage: absence proven")
+				default:
+					c.loc.add("rpc storage: membership proven")
+				}
+				continue
+			}
+			// positional proof failed: is the right proof somewhere else in the response?
+			elsewhere := -1
+			for j2 := range sets {
+				if vd2 := indVerify(ped, root, k.BigInt(new(big.Int)), 251, sets[j2]); j2 != j && vd2.OK && vd2.Val.Equal(&want) {
+					elsewhere = j2
+				}
+			}
+			if elsewhere >= 0 {
+				// one key per API version: the defect class is "the i-th storage proof is not the i-th requested contract's"
+				r.Violate(c.key("storage-proofs-not-in-request-order"), c.detail(body, map[string]any{"state_backend": c.backend, "contract": s.c.String(), "slot": k.String(), "request_index": j, "found_at_index": elsewhere}))
+				continue
+			}
+			if false {
+				bad("", map[string]any{"contract": s.c.String(), "slot": k.String(), "request_index": j, "found_at_index": elsewhere})
+			} else {
+				bad("storage-proof-does-not-establish-the-slot-value", map[string]any{"contract": s.c.String(), "slot": k.String(), "want": want.String(), "verdict": vd,
+					"storage_root": root.String(), "index": j})
+			}
+		}
+	}
+}
+
+// ---- enumeration of reachable states
+
+type reach struct {
+	version string
+	names   []string
+	entries []*chain.Entry
+}
+
+func reachable(version string, depth int) []*reach {
+	seen := map[string]bool{}
+	var out []*reach
+	var rec func(parent *chain.Entry, names []string, entries []*chain.Entry)
+	rec = func(parent *chain.Entry, names []string, entries []*chain.Entry) {
+		var st *chain.State
+		var num uint64
+		if parent != nil {
+			st, num = parent.State, parent.Block.Number+1
+		}
+		for _, nm := range chain.Alphabet(st, num, version) {
+			if nm.Name == "sys1.clear" {
+				continue // exotic (no real network clears a system contract); known C01 finding on the legacy backend
+			}
+			e, err := chain.Build(parent, nm.Spec)
+			if err != nil {
+				continue
+			}
+			ns := append(append([]string(nil), names...), nm.Name)
+			es := append(append([]*chain.Entry(nil), entries...), e)
+			root := e.State.Root(version)
+			k := fmt.Sprintf("%s|%d", root.String(), len(e.State.Classes))
+			if !seen[k] {
+				seen[k] = true
+				out = append(out, &reach{version, ns, es})
+			}
+			if len(es) < depth {
+				rec(e, ns, es)
+			}
+		}
+	}
+	rec(nil, nil, nil)
+	return out
+}
+
+func runRPC(r *ev.Run) {
+	depth := ev.Pick(r, 3, 4)
+	var all []*reach
+	for _, v := range []string{"0.13.2", "0.14.0", "0.14.1"} {
+		if v == "0.14.1" && r.Quick() {
+			continue
+		}
+		d := depth
+		if v == "0.14.0" && r.Quick() {
+			d = 2
+		}
+		all = append(all, reachable(v, d)...)
+	}
+	r.Set("rpc_distinct_states", int64(len(all)))
+	total := tally{}
+	var mu sync.Mutex
+	var skipped int64
+	type job struct {
+		rc       *reach
+		newState bool
+	}
+	var jobs []job
+	for _, rc := range all {
+		jobs = append(jobs, job{rc, false}, job{rc, true})
+	}
+	ev.Par(len(jobs), 16, func(i int) {
+		if r.OutOfTime() {
+			mu.Lock()
+			skipped++
+			mu.Unlock()
+			return
+		}
+		loc := tally{}
+		rpcState(r, jobs[i].rc, jobs[i].newState, loc)
+		mu.Lock()
+		for k, v := range loc {
+			total[k] += v
+		}
+		mu.Unlock()
+	})
+	if skipped > 0 {
+		r.Incomplete(fmt.Sprintf("rpc: %d of %d (state,backend) pairs not processed (deadline)", skipped, len(jobs)))
+	}
+	for k, v := range total {
+		if k[0] == '#' {
+			r.Add(k[1:], v)
+		} else {
+			r.Set("n["+k+"]", v)
+		}
+	}
+}
+
+func rpcState(r *ev.Run, rc *reach, newState bool, loc tally) {
+	backend := "legacy-state"
+	if newState {
+		backend = "new-state"
+	}
+	hist := strings.Join(rc.names, " ; ")
+	d := memory.New()
+	bc := chain.NewNode(d, newState)
+	var parent *chain.Entry
+	for i, e := range rc.entries {
+		f := e.Fresh(parent)
+		if err := chain.StoreSync(bc, f); err != nil {
+			r.Violate("rpc-setup valid-block-refused "+backend, map[string]any{"history": hist, "at": i, "err": err.Error(), "protocol": rc.version})
+			return
+		}
+		parent = e
+	}
+	head := rc.entries[len(rc.entries)-1]
+	node := newRPCNode(bc)
+	contracts, classes, slots := universe(head.State)
+	loc["#rpc_states_served"]++
+	for _, api := range []string{"v10", "v9"} {
+		c := &rpcCtx{r: r, api: api, backend: backend, version: rc.version, hist: hist, st: head.State, e: head, loc: loc}
+		do := func(rq *request) {
+			resp, body, err := node.call(api, rq)
+			loc["#rpc_calls"]++
+			if err != nil {
+				r.Violate(c.key("server-error "+backend), c.detail(body, map[string]any{"err": err.Error()}))
+				return
+			}
+			p, msg := ev.Guard(func() { c.verify(rq, body, resp) })
+			if p {
+				r.Violate("HARNESS rpc verifier panicked", c.detail(body, map[string]any{"panic": msg}))
+			}
+		}
+		latest := "latest"
+		one := func(f felt.Felt) []felt.Felt { return []felt.Felt{f} }
+		// every class, every contract, every (contract, slot) alone
+		for _, cl := range classes {
+			do(&request{blockID: latest, classes: one(cl)})
+		}
+		for _, a := range contracts {
+			do(&request{blockID: latest, contracts: one(a)})
+			for _, k := range slots {
+				rq := &request{blockID: latest, contracts: one(a)}
+				rq.storage = append(rq.storage, struct {
+					c    felt.Felt
+					keys []felt.Felt
+				}{a, one(k)})
+				do(rq)
+			}
+		}
+		// everything in one request (several contracts, several keys each), by number and by hash
+		for _, bid := range []any{latest, map[string]any{"block_number": head.Block.Number}, map[string]any{"block_hash": head.Block.Hash.String()}} {
+			rq := &request{blockID: bid, classes: classes, contracts: contracts}
+			for _, a := range contracts {
+				rq.storage = append(rq.storage, struct {
+					c    felt.Felt
+					keys []felt.Felt
+				}{a, slots})
+			}
+			do(rq)
+		}
+		// nothing requested: only the roots
+		do(&request{blockID: latest})
+	}
+}
